@@ -615,7 +615,8 @@ class Builder:
                 paths = [p for p, f in self.string_paths(req, fileidx) if self.p.get("routing_reserved_ok") or not _has_reserved(p)]
                 if paths:
                     rps = []
-                    for _ in range(self.d(st.integers(1, 3))):
+                    # 0 parameters: the empty annotation (AIP-4222: allowed, turns the implicit headers off)
+                    for _ in range(self.d(st.sampled_from([0, 1, 1, 1, 2, 2, 3, 3]))):
                         fld = self.d(st.sampled_from(paths))
                         t = self.d(st.sampled_from([None, "{%s=**}", "{%s=*}", "{%s=projects/*}/**", "projects/*/{%s=zones/*}/**", "{%s=projects/*/zones/*}"]))
                         keyn = self.d(st.sampled_from(["routing_id", "table_name", fld.replace(".", "_")]))
